@@ -157,9 +157,10 @@ theorem ber_decodeLength_returns (maxLen : Nat) (first : Byte) (rest : Bytes) (n
           have hc : ((decide ((first.toNat : Int) < 128) && !(decide ((maxLen : Int) ≠ 0) && decide ((first.toNat : Int) > (maxLen : Int)))) = false) := by
             have : ¬ ((first.toNat : Int) < 128) := by omega
             simp [this]
-          have hr : ((1 : Int) + ((first.toNat : Int) - 128)) = ((1 + (first.toNat - 128) : Nat) : Int) := by omega
           unfold ber_DecodeLength_returns
-          rw [firstRet, hc, if_neg (by decide), firstRet, if_pos rfl, hr]
+          rw [firstRet, hc, if_neg (by decide), firstRet, if_pos rfl]
+          simp only [Option.some.injEq, List.cons.injEq, and_true, true_and]
+          omega
 
 theorem none_decodeLength_returns (maxLen : Nat) (data : Bytes) (n r : Nat)
     (h : decodeLength .none maxLen data = .ok (n, r)) :
@@ -337,9 +338,8 @@ theorem default_unpack_translated (s : PrimSpec) (hp : s.packer = .default) (dat
   | panic => rfl
   | ok vr =>
     obtain ⟨value, read⟩ := vr
-    simp only [default_Unpack_guards, default_Unpack_returns, firstRet, one, List.any_nil, if_true]
-    have : ((read : Int) + (pb : Int)).toNat = read + pb := by omega
-    simp [this]
+    simp only [default_Unpack_guards, default_Unpack_returns, firstRet, one, List.any_nil, if_true, Bool.false_eq_true, if_false]
+    exact congrArg (fun k => Res.ok (s.pad.unpad value, k)) (by omega)
 
 /-- `Track2Unpacker.Unpack`: the decoder gets the announced length made even when the spec has a
 padder (`valueLength++` under `spec.Pad != nil && valueLength%2 != 0`), the value after unpadding
@@ -361,11 +361,11 @@ theorem track2_unpack_translated (s : PrimSpec) (hp : s.packer = .track2) (data 
   · simp only [track2_Unpack_args_spec_Enc_Decode, firstRet, one, if_true]
     by_cases h1 : s.pad ≠ .nil <;> by_cases h2 : vl % 2 ≠ 0
     · have h2' : ((vl : Int) % 2 ≠ 0) := by omega
-      simp [h1, h2, h2']
+      simp [h1, h2, h2'] <;> omega
     · have h2' : ¬ ((vl : Int) % 2 ≠ 0) := by omega
-      simp [h1, h2, h2']
-    · simp [h1, h2]
-    · simp [h1, h2]
+      simp [h1, h2, h2'] <;> omega
+    · simp [h1, h2] <;> omega
+    · simp [h1, h2] <;> omega
   · simp only [PrimSpec.unpackBytes, hd, hp]
     rw [if_neg (by omega)]
     generalize Enc.decode s.enc (data.drop pb) _ = e
@@ -379,7 +379,9 @@ theorem track2_unpack_translated (s : PrimSpec) (hp : s.packer = .track2) (data 
       · have hg' : (((s.pad.unpad value).length : Int) > (vl : Int)) := by omega
         simp [track2_Unpack_guards, hg, hg']
       · have hg' : ¬ (((s.pad.unpad value).length : Int) > (vl : Int)) := by omega
-        simp [track2_Unpack_guards, track2_Unpack_returns, firstRet, one, hg, hg', this]
+        simp only [track2_Unpack_guards, track2_Unpack_returns, firstRet, one, List.any_cons, List.any_nil, Bool.or_false, id,
+          decide_eq_true_eq, hg, hg', if_false, if_true]
+        exact congrArg (fun k => Res.ok (s.pad.unpad value, k)) (by omega)
 
 /-! ### `Composite.Unpack`: the body handed to the subfields and the total reported -/
 
@@ -393,6 +395,10 @@ theorem sliceOf_eq (data : Bytes) (o d : Nat) : sliceOf data (o : Int) ((o : Int
   rw [h1, h2, List.drop_take]
   congr 1
   omega
+
+theorem sliceOf_eq' (data : Bytes) (o d : Nat) (lo hi : Int) (h1 : lo = (o : Int)) (h2 : hi = (o : Int) + (d : Int)) :
+    sliceOf data lo hi = (data.drop o).take d := by
+  subst h1; subst h2; exact sliceOf_eq data o d
 
 /-- whatever `Composite.Unpack` accepts: the subfields saw exactly `data[offset : offset+dataLen]`
 (the one slice expression of the source), and the count reported is `offset + read` -/
@@ -409,7 +415,7 @@ theorem composite_unpack_ok_returns (s : CompSpec) (subs : List (Tag × Field)) 
     simp only [composite_Unpack_returns, firstRet, if_true, Option.some.injEq, List.cons.injEq, and_true]
     omega
   · simp only [composite_Unpack_slices]
-    exact sliceOf_eq data offset dataLen
+    exact sliceOf_eq' data offset dataLen _ _ (by omega) (by omega)
 
 /-! ### the running offset of `Message.unpack` -/
 
@@ -432,37 +438,53 @@ theorem scan_set_translated (spec : MsgSpec) (bm : Bitmap) (n i : Nat) (src : By
   subst hlo
   have h0 : ((off : Int)).toNat = off := by omega
   rw [h0] at hv
-  refine ⟨(1, (read : Int)), rfl, ?_⟩
-  have h1 : (applyUpd (1, (read : Int)) (off : Int)).toNat = off + read := by
+  refine ⟨_, rfl, ?_⟩
+  have h1 : ∀ u, (message_unpack_updates_off off read)[2]? = some u → (applyUpd u (off : Int)).toNat = off + read := by
+    intro u hu
+    simp only [message_unpack_updates_off, List.getElem?_cons_succ, List.getElem?_cons_zero, Option.some.injEq] at hu
+    subst hu
     simp only [applyUpd]; omega
-  simp [scan, hp, hs, hf, ho, hv, h1]
+  rw [h1 _ rfl]
+  simp [scan, hp, hs, hf, ho, hv]
 
 open MsgSpec in
-/-- the prologue: the MTI sets the offset to the bytes it read, the bitmap is decoded from
-`src[off:]` and adds the bytes it read, and the element loop starts there -/
+/-- the prologue: `off` starts at 0, the MTI moves it by the bytes it read, the bitmap is decoded
+from `src[off:]` and adds the bytes it read, and the element loop starts there -/
 theorem unpack_prologue_translated (spec : MsgSpec) (src : Bytes) (mtiV : Value) (r1 : Nat) (bm : Bitmap) (r2 : Nat)
     (hm : spec.mti.unpack src = .ok (mtiV, r1)) (hle : ¬ r1 > src.length) :
-    ∃ u0 u1 lo, (message_unpack_updates_off 0 r1)[0]? = some u0 ∧
-      (message_unpack_updates_off 0 r2)[1]? = some u1 ∧
-      (message_unpack_slices (applyUpd u0 0) 0)[0]? = some [lo, -1] ∧
+    ∃ i0 u0 u1 lo, (message_unpack_init_off 0 0) = [i0] ∧
+      (message_unpack_updates_off i0 r1)[0]? = some u0 ∧
+      (message_unpack_updates_off (applyUpd u0 i0) r2)[1]? = some u1 ∧
+      (message_unpack_slices (applyUpd u0 i0) 0)[0]? = some [lo, -1] ∧
       (Bitmap.unpack spec.bitmap.enc spec.bitmap.pref (Bitmap.reset spec.bitmap.specLen spec.bitmap.auto) (src.drop lo.toNat) = .ok (bm, r2) →
         MsgSpec.unpack spec src =
-          match scan spec bm (bm.len - 1) 2 src (applyUpd u1 (applyUpd u0 0)).toNat [] with
+          match scan spec bm (bm.len - 1) 2 src (applyUpd u1 (applyUpd u0 i0)).toNat [] with
           | .err p => .err p
           | .panic => .panic
           | .ok (fields, off) => .ok ({ mti := some mtiV, fields := fields }, off)) := by
-  refine ⟨(0, (r1 : Int)), (1, (r2 : Int)), applyUpd (0, (r1 : Int)) 0, rfl, rfl, rfl, ?_⟩
-  have h0 : (applyUpd (0, (r1 : Int)) 0).toNat = r1 := by simp only [applyUpd]; omega
-  have h1 : (applyUpd (1, (r2 : Int)) (applyUpd (0, (r1 : Int)) 0)).toNat = r1 + r2 := by simp only [applyUpd]; omega
+  refine ⟨_, _, _, _, rfl, rfl, rfl, rfl, ?_⟩
+  have h0 : ∀ u, (message_unpack_updates_off 0 r1)[0]? = some u → applyUpd u 0 = (r1 : Int) := by
+    intro u hu
+    simp only [message_unpack_updates_off, List.getElem?_cons_zero, Option.some.injEq] at hu
+    subst hu
+    simp only [applyUpd]; omega
+  have h1 : ∀ u, (message_unpack_updates_off (r1 : Int) r2)[1]? = some u → (applyUpd u (r1 : Int)).toNat = r1 + r2 := by
+    intro u hu
+    simp only [message_unpack_updates_off, List.getElem?_cons_succ, List.getElem?_cons_zero, Option.some.injEq] at hu
+    subst hu
+    simp only [applyUpd]; omega
   intro hb
-  rw [h0] at hb
-  simp only [MsgSpec.unpack, hm, hle, if_false, hb, h1]
+  rw [h0 _ rfl] at hb
+  have hr : ((r1 : Int)).toNat = r1 := by omega
+  rw [hr] at hb
+  rw [h0 _ rfl, h1 _ rfl]
+  simp only [MsgSpec.unpack, hm, hle, if_false, hb]
   rfl
 
 /-! ### the running offset of the composite loops -/
 
-/-- `unpackSubfieldsByTag`, a known tag: the offset moves by the bytes of the tag (second
-assignment to `offset`) and then by the bytes the subfield reported (fourth assignment) -/
+/-- `unpackSubfieldsByTag`, a known tag: the offset moves by the bytes of the tag (first
+assignment to `offset` after its definition) and then by the bytes the subfield reported (third) -/
 theorem tlv_known_step_translated (t : TagSpec) (enc : Enc) (isBer : Bool) (known : Tag → Bool)
     (dispatch : Tag → Bytes → UR (Value × Nat)) (fuel : Nat) (data : Bytes) (offset : Nat) (acc : List (Tag × Value))
     (tagBytes : Bytes) (read : Nat) (v : Value) (read' : Nat)
@@ -471,19 +493,30 @@ theorem tlv_known_step_translated (t : TagSpec) (enc : Enc) (isBer : Bool) (know
     (hk : known (t.pad.unpad tagBytes) = true) (hle : ¬ offset + read > data.length)
     (hv : dispatch (t.pad.unpad tagBytes) (data.drop (offset + read)) = .ok (v, read'))
     (hp : ¬ (read = 0 ∧ read' = 0)) :
-    ∃ u1 u3, (tlv_unpackSubfieldsByTag_updates_offset offset data.length 0 read 0 0)[1]? = some u1 ∧
-      (tlv_unpackSubfieldsByTag_updates_offset offset data.length 0 read' 0 0)[3]? = some u3 ∧
+    ∃ u1 u3, (tlv_unpackSubfieldsByTag_updates_offset offset data.length 0 read 0 0)[0]? = some u1 ∧
+      (tlv_unpackSubfieldsByTag_updates_offset (applyUpd u1 offset) data.length 0 read' 0 0)[2]? = some u3 ∧
+      tlv_unpackSubfieldsByTag_init_offset 0 0 0 0 0 0 = [0] ∧
       tlvLoop t enc isBer known dispatch (fuel + 1) data offset acc =
         tlvLoop t enc isBer known dispatch fuel data (applyUpd u3 (applyUpd u1 offset)).toNat
           (insertKV (t.pad.unpad tagBytes) v acc) := by
-  refine ⟨(1, (read : Int)), (1, (read' : Int)), rfl, rfl, ?_⟩
-  have h1 : (applyUpd (1, (read' : Int)) (applyUpd (1, (read : Int)) (offset : Int))).toNat = offset + read + read' := by
+  refine ⟨_, _, rfl, rfl, rfl, ?_⟩
+  have h1 : ∀ u, (tlv_unpackSubfieldsByTag_updates_offset offset data.length 0 read 0 0)[0]? = some u →
+      applyUpd u (offset : Int) = ((offset + read : Nat) : Int) := by
+    intro u hu
+    simp only [tlv_unpackSubfieldsByTag_updates_offset, List.getElem?_cons_zero, Option.some.injEq] at hu
+    subst hu
     simp only [applyUpd]; omega
-  rw [h1]
+  have h3 : ∀ u, (tlv_unpackSubfieldsByTag_updates_offset ((offset + read : Nat) : Int) data.length 0 read' 0 0)[2]? = some u →
+      (applyUpd u ((offset + read : Nat) : Int)).toNat = offset + read + read' := by
+    intro u hu
+    simp only [tlv_unpackSubfieldsByTag_updates_offset, List.getElem?_cons_succ, List.getElem?_cons_zero, Option.some.injEq] at hu
+    subst hu
+    simp only [applyUpd]; omega
+  rw [h1 _ rfl, h3 _ rfl]
   simp only [tlvLoop, hlt, if_false, hd, hk, Bool.not_true, Bool.false_eq_true, hle, hv, hp]
 
 /-- `unpackSubfieldsByTag`, an unknown tag that is skipped: the offset moves by the bytes of the
-tag and then by the announced length plus the bytes of its prefix (third assignment) -/
+tag and then by the announced length plus the bytes of its prefix (second assignment) -/
 theorem tlv_skip_step_translated (t : TagSpec) (enc : Enc) (isBer : Bool) (known : Tag → Bool)
     (dispatch : Tag → Bytes → UR (Value × Nat)) (fuel : Nat) (data : Bytes) (offset : Nat) (acc : List (Tag × Value))
     (tagBytes : Bytes) (read : Nat) (fieldLength read' : Nat)
@@ -494,14 +527,24 @@ theorem tlv_skip_step_translated (t : TagSpec) (enc : Enc) (isBer : Bool) (known
     (hl : (match t.prefUnknown with | some p => (p, maxInt) | Option.none => (Pref.berTLV, 0)).1.decodeLength
             (match t.prefUnknown with | some p => (p, maxInt) | Option.none => (Pref.berTLV, 0)).2 (data.drop (offset + read)) = .ok (fieldLength, read'))
     (hfit : ¬ (fieldLength > data.length - (offset + read) - read' ∨ offset + read + read' > data.length)) :
-    ∃ u1 u2, (tlv_unpackSubfieldsByTag_updates_offset offset data.length 0 read 0 0)[1]? = some u1 ∧
-      (tlv_unpackSubfieldsByTag_updates_offset offset data.length fieldLength read' 0 0)[2]? = some u2 ∧
+    ∃ u1 u2, (tlv_unpackSubfieldsByTag_updates_offset offset data.length 0 read 0 0)[0]? = some u1 ∧
+      (tlv_unpackSubfieldsByTag_updates_offset (applyUpd u1 offset) data.length fieldLength read' 0 0)[1]? = some u2 ∧
       tlvLoop t enc isBer known dispatch (fuel + 1) data offset acc =
         tlvLoop t enc isBer known dispatch fuel data (applyUpd u2 (applyUpd u1 offset)).toNat acc := by
-  refine ⟨(1, (read : Int)), (1, (fieldLength : Int) + (read' : Int)), rfl, rfl, ?_⟩
-  have h1 : (applyUpd (1, (fieldLength : Int) + (read' : Int)) (applyUpd (1, (read : Int)) (offset : Int))).toNat = offset + read + fieldLength + read' := by
+  refine ⟨_, _, rfl, rfl, ?_⟩
+  have h1 : ∀ u, (tlv_unpackSubfieldsByTag_updates_offset offset data.length 0 read 0 0)[0]? = some u →
+      applyUpd u (offset : Int) = ((offset + read : Nat) : Int) := by
+    intro u hu
+    simp only [tlv_unpackSubfieldsByTag_updates_offset, List.getElem?_cons_zero, Option.some.injEq] at hu
+    subst hu
     simp only [applyUpd]; omega
-  rw [h1]
+  have h2 : ∀ u, (tlv_unpackSubfieldsByTag_updates_offset ((offset + read : Nat) : Int) data.length fieldLength read' 0 0)[1]? = some u →
+      (applyUpd u ((offset + read : Nat) : Int)).toNat = offset + read + fieldLength + read' := by
+    intro u hu
+    simp only [tlv_unpackSubfieldsByTag_updates_offset, List.getElem?_cons_succ, List.getElem?_cons_zero, Option.some.injEq] at hu
+    subst hu
+    simp only [applyUpd]; omega
+  rw [h1 _ rfl, h2 _ rfl]
   cases hpu : t.prefUnknown with
   | none =>
     simp only [hpu] at hl
@@ -512,18 +555,24 @@ theorem tlv_skip_step_translated (t : TagSpec) (enc : Enc) (isBer : Bool) (known
     simp only [hpu, Option.isSome_some, Bool.or_true, Bool.and_true] at hs
     simp [tlvLoop, hlt, hd, hk, hs, hle, hpu, hl, hfit]
 
-/-- `unpackSubfieldsByBitmap`: a set bit moves the offset by the bytes its subfield reported, and
-the subfield was decoded from `data[off:]` -/
+/-- `unpackSubfieldsByBitmap`: a set bit moves the offset by the bytes its subfield reported (the
+second assignment to `off`; the first adds the bytes of the bitmap) -/
 theorem bitmapScan_set_translated (bm : Bitmap) (dispatch : Tag → Bytes → Option (UR (Value × Nat)))
     (n i : Nat) (data : Bytes) (off : Nat) (acc : List (Tag × Value)) (v : Value) (read : Nat)
     (hs : bm.isSet i = true) (ho : ¬ off > data.length)
     (hv : dispatch (natToDec i) (data.drop off) = some (.ok (v, read))) :
-    ∃ u, (bitmapped_unpackSubfieldsByBitmap_updates_off off read).getLast? = some u ∧
+    ∃ u, (bitmapped_unpackSubfieldsByBitmap_updates_off off read)[1]? = some u ∧
+      bitmapped_unpackSubfieldsByBitmap_init_off 0 0 = [0] ∧
       bitmapScan bm dispatch (n + 1) i data off acc =
         bitmapScan bm dispatch n (i + 1) data (applyUpd u off).toNat (acc ++ [(natToDec i, v)]) := by
-  refine ⟨(1, (read : Int)), rfl, ?_⟩
-  have h1 : (applyUpd (1, (read : Int)) (off : Int)).toNat = off + read := by simp only [applyUpd]; omega
-  rw [h1]
+  refine ⟨_, rfl, rfl, ?_⟩
+  have h1 : ∀ u, (bitmapped_unpackSubfieldsByBitmap_updates_off off read)[1]? = some u →
+      (applyUpd u (off : Int)).toNat = off + read := by
+    intro u hu
+    simp only [bitmapped_unpackSubfieldsByBitmap_updates_off, List.getElem?_cons_succ, List.getElem?_cons_zero, Option.some.injEq] at hu
+    subst hu
+    simp only [applyUpd]; omega
+  rw [h1 _ rfl]
   simp [bitmapScan, hs, ho, hv]
 
 /-- `unpackSubfields` (positional composite): the subfield is decoded from `data[offset:]`, the
@@ -532,30 +581,42 @@ condition (a variable-length composite whose bytes are used up), read with the N
 theorem positional_step_translated (tag : Tag) (f : Field) (rest : List (Tag × Field)) (data : Bytes) (isVar : Bool)
     (offset : Nat) (acc : List (Tag × Value)) (v : Value) (read : Nat) (ho : ¬ offset > data.length)
     (hv : f.unpack (data.drop offset) = .ok (v, read)) :
-    ∃ u, (positional_unpackSubfields_updates_offset offset read data.length isVar true).getLast? = some u ∧
+    ∃ u, (positional_unpackSubfields_updates_offset offset read data.length isVar true)[0]? = some u ∧
+      positional_unpackSubfields_init_offset 0 0 0 isVar true = [0] ∧
       unpackPositional ((tag, f) :: rest) data isVar offset acc =
         if (positional_unpackSubfields_breaks (applyUpd u offset) read data.length isVar true).any id
         then .ok (acc ++ [(tag, v)], (applyUpd u offset).toNat)
         else unpackPositional rest data isVar (applyUpd u offset).toNat (acc ++ [(tag, v)]) := by
-  refine ⟨(1, (read : Int)), rfl, ?_⟩
-  have h1 : (applyUpd (1, (read : Int)) (offset : Int)).toNat = offset + read := by simp only [applyUpd]; omega
-  have h2 : applyUpd (1, (read : Int)) (offset : Int) = ((offset + read : Nat) : Int) := by simp only [applyUpd]; omega
-  rw [h1, h2]
-  simp only [unpackPositional, ho, if_false, hv, positional_unpackSubfields_breaks, List.any_cons, List.any_nil,
-    Bool.or_false, id, Bool.not_true, Bool.not_false, Bool.true_and]
-  by_cases hb : offset + read ≥ data.length
-  · have hb' : (((offset + read : Nat) : Int) ≥ (data.length : Int)) := by omega
-    cases isVar <;> simp [hb] <;> intro hh <;> omega
-  · have hb' : ¬ (((offset + read : Nat) : Int) ≥ (data.length : Int)) := by omega
-    cases isVar <;> simp [hb] <;> intro hh <;> omega
+  refine ⟨_, rfl, rfl, ?_⟩
+  have h2 : ∀ u, (positional_unpackSubfields_updates_offset offset read data.length isVar true)[0]? = some u →
+      applyUpd u (offset : Int) = ((offset + read : Nat) : Int) := by
+    intro u hu
+    simp only [positional_unpackSubfields_updates_offset, List.getElem?_cons_zero, Option.some.injEq] at hu
+    subst hu
+    simp only [applyUpd]; omega
+  have hbr : (positional_unpackSubfields_breaks ((offset + read : Nat) : Int) read data.length isVar true).any id = true ↔
+      (isVar = true ∧ offset + read ≥ data.length) := by
+    unfold positional_unpackSubfields_breaks
+    cases isVar <;> guards_to_prop <;> guards_done
+  have h1 : (((offset + read : Nat) : Int)).toNat = offset + read := by omega
+  rw [h2 _ rfl, h1]
+  simp only [unpackPositional, ho, if_false, hv]
+  by_cases hb : (isVar = true ∧ offset + read ≥ data.length)
+  · rw [if_pos (hbr.mpr hb)]
+    simp [hb.1, hb.2]
+  · rw [if_neg (fun h => hb (hbr.mp h))]
+    cases isVar
+    · simp
+    · have : ¬ offset + read ≥ data.length := fun h => hb ⟨rfl, h⟩
+      simp [this]
 
-/-- `Bitmap.Unpack`: every block adds the bytes the decoder reported to the total (the second
-assignment to `read`), and the next block is decoded from `data[read:]` -/
+/-- `Bitmap.Unpack`: `read` starts at 0, every block adds the bytes the decoder reported, and the
+next block is decoded from `data[read:]` -/
 theorem bitmap_unpack_read_translated (read r : Nat) :
-    ∃ u, (bitmap_Unpack_updates_read read r 0).getLast? = some u ∧ (applyUpd u read).toNat = read + r ∧
-      (bitmap_Unpack_updates_read read r 0).head? = some (0, 0) ∧
+    ∃ u, (bitmap_Unpack_updates_read read r 0)[0]? = some u ∧ (applyUpd u read).toNat = read + r ∧
+      bitmap_Unpack_init_read 0 0 0 = [0] ∧
       bitmap_Unpack_slices read r 0 = [[(read : Int), -1]] := by
-  refine ⟨(1, (r : Int)), rfl, ?_, rfl, rfl⟩
+  refine ⟨_, rfl, ?_, rfl, rfl⟩
   simp only [applyUpd]; omega
 
 /-! ### non-vacuity: concrete inputs that meet the hypotheses -/
@@ -569,7 +630,7 @@ example : one (firstRet (track2_Unpack_args_spec_Enc_Decode 37 1 0 0 true)) = so
     one (firstRet (track2_Unpack_args_spec_Enc_Decode 37 1 0 0 false)) = some 37 ∧
     one (firstRet (track2_Unpack_args_spec_Enc_Decode 36 1 0 0 true)) = some 36 := by decide
 
-example : (message_unpack_updates_off 0 4).map (fun u => applyUpd u 10) = [4, 14, 14] := by decide
+example : (message_unpack_updates_off 10 4).map (fun u => applyUpd u 10) = [4, 14, 14] ∧ message_unpack_init_off 0 0 = [0] := by decide
 example : (positional_unpackSubfields_breaks 6 2 6 true true).any id = true ∧
     (positional_unpackSubfields_breaks 5 2 6 true true).any id = false ∧
     (positional_unpackSubfields_breaks 6 2 6 false true).any id = false := by decide
